@@ -151,6 +151,12 @@ func checkC02(tier string) int {
 }
 
 func runCaseMore(kind string, spec json.RawMessage) vx.Out {
+	if o, ok := runCaseC09(kind, spec); ok {
+		return o
+	}
+	if o, ok := runCaseC10(kind, spec); ok {
+		return o
+	}
 	switch kind {
 	case "genwait":
 		var a struct {
